@@ -26,6 +26,7 @@ import copy
 import json
 import os
 import re
+import shutil
 
 import vlib
 from vlib import Ctx, run_tlc, build_harness, run_bin, parse_jsonl, SPEC
@@ -58,12 +59,22 @@ def _actions_from_dump(path):
                 if m:
                     cnt[m.group(1)] = cnt.get(m.group(1), 0) + 1
     os.remove(path)
+    if os.path.exists(path[:-4] + "_liveness.dot"):      # written next to it for configurations with a PROPERTY
+        os.remove(path[:-4] + "_liveness.dot")
     return {k: (v, v) for k, v in cnt.items()}
+
+
+def _jtmp():
+    """TLC unpacks its standard modules into java.io.tmpdir: keep that under .work/C02, not /tmp."""
+    d = os.path.join(vlib.workdir("C02"), "jtmp")
+    os.makedirs(d, exist_ok=True)
+    return {"_JAVA_OPTIONS": "-Djava.io.tmpdir=" + d}
 
 
 def _tlc(cfg, **kw):
     kw.setdefault("work_id", "c02")
     kw.setdefault("timeout", 2400)
+    kw["env"] = dict(kw.get("env") or {}, **_jtmp())
     return run_tlc("MC_HttpReq.tla", cfg, D, **kw)
 
 
@@ -98,7 +109,7 @@ def _replay_vectors(ctx, bins, lines, label, account=True):
 
 
 def _validate_trace(ctx, path, name, n, account=True):
-    t = run_tlc("Trace_HttpReq.tla", "Trace_HttpReq.cfg", D, workers=1, env={"TRACE": path}, timeout=2400,
+    t = run_tlc("Trace_HttpReq.tla", "Trace_HttpReq.cfg", D, workers=1, env=dict({"TRACE": path}, **_jtmp()), timeout=2400,
                 work_id="c02", deque=True, heap="4g")
     if account:
         ctx.add_tlc(name, t)
@@ -144,6 +155,7 @@ def _replay_file(ctx, bins, replay):
     if not ctx.cov["samples"]:
         ctx.sample({"replayed": os.path.basename(replay)})
     ctx.cov["rule"] = "replay of a stored failing case"
+    shutil.rmtree(os.path.join(vlib.workdir("C02"), "jtmp"), ignore_errors=True)
     return ctx.finish()
 
 
@@ -186,7 +198,7 @@ def run(tier, replay):
     # 2. sensitivity: every deviation must break its invariant --------------------------------------
     def sens(item):
         dev, inv = item
-        return dev, inv, _tlc("MC_HttpReq_dev_%s.cfg" % dev, workers=2, heap="2g", timeout=900)
+        return dev, inv, _tlc("MC_HttpReq_dev_%s.cfg" % dev, workers=2, heap="2g", timeout=900, work_id="c02-" + dev)
     with concurrent.futures.ThreadPoolExecutor(max_workers=3) as ex:
         for dev, inv, r in ex.map(sens, SENSITIVITY):
             ctx.add_tlc("sensitivity: Dev={%s} must violate %s" % (dev, inv), r)
@@ -230,7 +242,7 @@ def run(tier, replay):
     ctx.add_part("recorded requests validated by TLC", records=len(recs), with_more_than_20_fields=sum(1 for r in recs if r["got"]["nh"] > 20),
                  with_body_of_8KiB_or_more=sum(1 for r in recs if r["body"][0] >= 8192),
                  max_head_bytes=max(len(r["head"]) for r in recs), max_body_bytes=max(r["body"][0] for r in recs), rejected=len(rej))
-    ctx.sample({"recorded": _short(recs[0])})
+    ctx.sample({"recorded": _short(recs[0])}, limit=12)
     if rej:
         ctx.violation("%d recorded request(s) are not explained by the specification (parse, segmentation or round trip); first: %s" % (
             len(rej), json.dumps(_short(recs[rej[0] - 1]))[:900]),
@@ -266,4 +278,5 @@ def run(tier, replay):
         "a serialised request without fields ends in one extra CRLF (left unread by the second parse); request equality, which is what "
         "C02 states, is unaffected - reported in coverage.parts, modelled as ZeroHdrExtraCrlf / Inv_SerialExact",
     ]
+    shutil.rmtree(os.path.join(vlib.workdir("C02"), "jtmp"), ignore_errors=True)
     return ctx.finish()
